@@ -23,7 +23,12 @@ fn hook_invocations(w: &super::super::world::World) -> Vec<HookInv<'_>> {
 		match &e.ev {
 			Ev::HookSpawn { id, rec } => {
 				by_id.insert(*id, v.len());
-				v.push(HookInv { spawn: e, rec: rec.clone(), exit_seq: None, code: None });
+				v.push(HookInv {
+					spawn: e,
+					rec: rec.clone(),
+					exit_seq: None,
+					code: None,
+				});
 			}
 			Ev::HookExit { id, code } => {
 				if let Some(i) = by_id.get(id) {
@@ -44,7 +49,12 @@ pub fn check(r: &RunResult, rep: &mut Report) {
 	}
 	let invs = hook_invocations(w);
 	let sendseq = common::tx_send_seq(w);
-	let reply_seq = |tx: u64| -> Option<u64> { w.trace.iter().find(|e| matches!(&e.ev, Ev::NetReply { tx: t, .. } if *t == tx)).map(|e| e.seq) };
+	let reply_seq = |tx: u64| -> Option<u64> {
+		w.trace
+			.iter()
+			.find(|e| matches!(&e.ev, Ev::NetReply { tx: t, .. } if *t == tx))
+			.map(|e| e.seq)
+	};
 	for ca in w.cas.iter() {
 		for az in ca.authzs.iter() {
 			let o = &ca.orders[az.order];
@@ -62,18 +72,43 @@ pub fn check(r: &RunResult, rep: &mut Report) {
 				None => continue,
 			};
 			// the next request of this order after the fetch
-			let mut end_seq = ca.posts.iter().filter(|p| p.order == Some(o.id) && p.tx > fetch_tx).filter_map(|p| sendseq.get(&p.tx)).min().copied().unwrap_or(u64::MAX);
+			let mut end_seq = ca
+				.posts
+				.iter()
+				.filter(|p| p.order == Some(o.id) && p.tx > fetch_tx)
+				.filter_map(|p| sendseq.get(&p.tx))
+				.min()
+				.copied()
+				.unwrap_or(u64::MAX);
 			// ... bounded by the end of that daemon run and by the certificate's next order (an attempt
 			// cut by a stop leaves no later request of this order; later orders re-use the identifier)
-			if let Some(s) = w.trace.iter().find(|e| e.seq > fetch_seq && matches!(&e.ev, Ev::Stopped { .. })).map(|e| e.seq) {
+			if let Some(s) = w
+				.trace
+				.iter()
+				.find(|e| e.seq > fetch_seq && matches!(&e.ev, Ev::Stopped { .. }))
+				.map(|e| e.seq)
+			{
 				end_seq = end_seq.min(s);
 			}
-			if let Some(s) = ca.orders.iter().filter(|x| x.cert == o.cert && x.id > o.id).filter_map(|x| sendseq.get(&x.created_tx)).min() {
+			if let Some(s) = ca
+				.orders
+				.iter()
+				.filter(|x| x.cert == o.cert && x.id > o.id)
+				.filter_map(|x| sendseq.get(&x.created_tx))
+				.min()
+			{
 				end_seq = end_seq.min(*s);
 			}
 			// the configured identifier this authorization is for
-			let wire = if az.wildcard { format!("*.{}", az.value) } else { az.value.clone() };
-			let cfg = cert.identifiers.iter().find(|i| expect::ident_wire(i).1 == wire);
+			let wire = if az.wildcard {
+				format!("*.{}", az.value)
+			} else {
+				az.value.clone()
+			};
+			let cfg = cert
+				.identifiers
+				.iter()
+				.find(|i| expect::ident_wire(i).1 == wire);
 			let cfg = match cfg {
 				Some(c) => c,
 				None => continue,
@@ -82,18 +117,34 @@ pub fn check(r: &RunResult, rep: &mut Report) {
 			let mine: Vec<&HookInv> = invs
 				.iter()
 				.filter(|h| h.spawn.seq > fetch_seq && h.spawn.seq < end_seq)
-				.filter(|h| hook_arg(&h.rec.argv, "challenge").map(|c| !c.is_empty()).unwrap_or(false))
+				.filter(|h| {
+					hook_arg(&h.rec.argv, "challenge")
+						.map(|c| !c.is_empty())
+						.unwrap_or(false)
+				})
 				.filter(|h| hook_arg(&h.rec.argv, "is_clean_hook") == Some("false"))
 				.filter(|h| {
 					let id = hook_arg(&h.rec.argv, "identifier").unwrap_or("");
 					id == az.value || id == format!("*.{}", az.value)
 				})
 				.collect();
-			let phase = if az.wildcard { "wildcard" } else if az.id_type == "ip" { "ip" } else { "dns" };
+			let phase = if az.wildcard {
+				"wildcard"
+			} else if az.id_type == "ip" {
+				"ip"
+			} else {
+				"dns"
+			};
 			if az.initial_status == "valid" {
 				rep.probe("c05.authz_already_valid", 1);
 				if !mine.is_empty() {
-					rep.add(Violation::new("C05", "challenge_hook_for_valid_authorization", "", phase, format!("{} hook(s) ran for {}", mine.len(), wire)));
+					rep.add(Violation::new(
+						"C05",
+						"challenge_hook_for_valid_authorization",
+						"",
+						phase,
+						format!("{} hook(s) ran for {}", mine.len(), wire),
+					));
 				}
 				continue;
 			}
@@ -135,70 +186,166 @@ pub fn check(r: &RunResult, rep: &mut Report) {
 			// expected hooks: the certificate's hooks of that type, declaration order
 			let hooks = expect::expand_hooks(&w.plan.config, &cert.hooks);
 			let tname = format!("challenge-{}", want_type);
-			let want_hooks: Vec<&str> = hooks.iter().filter(|h| h.types.iter().any(|t| t == &tname)).map(|h| h.name.as_str()).collect();
-			let same_type: Vec<&&HookInv> = mine.iter().filter(|h| hook_arg(&h.rec.argv, "challenge") == Some(want_type.as_str())).collect();
-			let got_hooks: Vec<&str> = same_type.iter().map(|h| hook_arg(&h.rec.argv, "hook").unwrap_or("")).collect();
+			let want_hooks: Vec<&str> = hooks
+				.iter()
+				.filter(|h| h.types.iter().any(|t| t == &tname))
+				.map(|h| h.name.as_str())
+				.collect();
+			let same_type: Vec<&&HookInv> = mine
+				.iter()
+				.filter(|h| hook_arg(&h.rec.argv, "challenge") == Some(want_type.as_str()))
+				.collect();
+			let got_hooks: Vec<&str> = same_type
+				.iter()
+				.map(|h| hook_arg(&h.rec.argv, "hook").unwrap_or(""))
+				.collect();
 			let all_ok = same_type.iter().all(|h| h.code == Some(Some(0)));
 			if all_ok && got_hooks != want_hooks && !ch.posted.is_empty() {
-				rep.add(Violation::new("C05", "challenge_hooks_not_the_configured_ones", "", phase, format!("expected {:?}, ran {:?}", want_hooks, got_hooks)));
+				rep.add(Violation::new(
+					"C05",
+					"challenge_hooks_not_the_configured_ones",
+					"",
+					phase,
+					format!("expected {:?}, ran {:?}", want_hooks, got_hooks),
+				));
 			}
 			// the values handed to the hooks
 			let acct = &ca.accounts[o.account];
 			// the key on record when the hooks ran (roll-overs may follow later)
-			let thumb = acct.key_history.iter().filter(|(tx, _)| sendseq.get(tx).map(|s| *s < fetch_seq).unwrap_or(true)).last().map(|x| x.1.clone()).unwrap_or_else(|| acct.key.thumb.clone());
+			let thumb = acct
+				.key_history
+				.iter()
+				.filter(|(tx, _)| sendseq.get(tx).map(|s| *s < fetch_seq).unwrap_or(true))
+				.last()
+				.map(|x| x.1.clone())
+				.unwrap_or_else(|| acct.key.thumb.clone());
 			let key_auth = format!("{}.{}", ch.token, thumb);
 			let digest = sha256(key_auth.as_bytes());
-			let (want_file, want_proof, want_raw): (Option<String>, String, String) = match want_type.as_str() {
-				"http-01" => (Some(ch.token.clone()), key_auth.clone(), String::new()),
-				"dns-01" => (None, b64u(&digest), String::new()),
-				_ => {
-					let hexs: Vec<String> = digest.iter().map(|b| hex(&[*b])).collect();
-					(None, format!("1.3.6.1.5.5.7.1.31=critical,DER:04:20:{}", hexs.join(":")), b64u(&digest))
-				}
+			let (want_file, want_proof, want_raw): (Option<String>, String, String) =
+				match want_type.as_str() {
+					"http-01" => (Some(ch.token.clone()), key_auth.clone(), String::new()),
+					"dns-01" => (None, b64u(&digest), String::new()),
+					_ => {
+						let hexs: Vec<String> = digest.iter().map(|b| hex(&[*b])).collect();
+						(
+							None,
+							format!("1.3.6.1.5.5.7.1.31=critical,DER:04:20:{}", hexs.join(":")),
+							b64u(&digest),
+						)
+					}
+				};
+			let want_alpn = if az.id_type == "ip" {
+				expect::reverse_dns(&az.value).unwrap_or_default()
+			} else {
+				String::new()
 			};
-			let want_alpn = if az.id_type == "ip" { expect::reverse_dns(&az.value).unwrap_or_default() } else { String::new() };
 			for h in same_type.iter() {
 				rep.probe("c05.challenge_hook_invocations_checked", 1);
 				let a = &h.rec.argv;
 				let proof = hook_arg(a, "proof").unwrap_or("");
 				if proof != want_proof {
-					rep.add(Violation::new("C05", "wrong_proof", &want_type, phase, format!("proof {:?}, expected {:?}", proof, want_proof)));
+					rep.add(Violation::new(
+						"C05",
+						"wrong_proof",
+						&want_type,
+						phase,
+						format!("proof {:?}, expected {:?}", proof, want_proof),
+					));
 				}
 				if let Some(f) = &want_file {
 					if hook_arg(a, "file_name") != Some(f.as_str()) {
-						rep.add(Violation::new("C05", "wrong_file_name", &want_type, phase, format!("{:?} vs token {:?}", hook_arg(a, "file_name"), f)));
+						rep.add(Violation::new(
+							"C05",
+							"wrong_file_name",
+							&want_type,
+							phase,
+							format!("{:?} vs token {:?}", hook_arg(a, "file_name"), f),
+						));
 					}
 				}
-				if want_type == "tls-alpn-01" && hook_arg(a, "raw_proof") != Some(want_raw.as_str()) {
-					rep.add(Violation::new("C05", "wrong_raw_proof", &want_type, phase, format!("{:?} vs {:?}", hook_arg(a, "raw_proof"), want_raw)));
+				if want_type == "tls-alpn-01" && hook_arg(a, "raw_proof") != Some(want_raw.as_str())
+				{
+					rep.add(Violation::new(
+						"C05",
+						"wrong_raw_proof",
+						&want_type,
+						phase,
+						format!("{:?} vs {:?}", hook_arg(a, "raw_proof"), want_raw),
+					));
 				}
 				if az.id_type == "ip" {
 					rep.probe("c05.ip_reverse_name_checked", 1);
 					if hook_arg(a, "identifier_tls_alpn") != Some(want_alpn.as_str()) {
-						rep.add(Violation::new("C05", "wrong_reverse_dns_name", &want_type, phase, format!("{:?} vs {:?}", hook_arg(a, "identifier_tls_alpn"), want_alpn)));
+						rep.add(Violation::new(
+							"C05",
+							"wrong_reverse_dns_name",
+							&want_type,
+							phase,
+							format!(
+								"{:?} vs {:?}",
+								hook_arg(a, "identifier_tls_alpn"),
+								want_alpn
+							),
+						));
 					}
 				}
 			}
 			// ready is told to the CA only after those hooks succeeded
 			if let Some((_, post_seq)) = ch.posted.first() {
 				rep.probe("c05.challenge_posts", 1);
-				let post_send = ch.posted.first().and_then(|(tx, _)| sendseq.get(tx)).copied().unwrap_or(*post_seq);
+				let post_send = ch
+					.posted
+					.first()
+					.and_then(|(tx, _)| sendseq.get(tx))
+					.copied()
+					.unwrap_or(*post_seq);
 				for h in same_type.iter() {
 					match (h.exit_seq, h.code) {
 						(Some(x), Some(code)) => {
 							if x > post_send {
-								rep.add(Violation::new("C05", "ready_before_hook_finished", &want_type, phase, String::new()));
+								rep.add(Violation::new(
+									"C05",
+									"ready_before_hook_finished",
+									&want_type,
+									phase,
+									String::new(),
+								));
 							}
-							let allowed = w.plan.config.hooks.iter().find(|c| Some(c.name.as_str()) == hook_arg(&h.rec.argv, "hook")).map(|c| c.allow_failure == Some(true)).unwrap_or(false);
+							let allowed = w
+								.plan
+								.config
+								.hooks
+								.iter()
+								.find(|c| Some(c.name.as_str()) == hook_arg(&h.rec.argv, "hook"))
+								.map(|c| c.allow_failure == Some(true))
+								.unwrap_or(false);
 							if code != Some(0) && !allowed {
-								rep.add(Violation::new("C05", "ready_after_failed_hook", &want_type, phase, format!("exit {:?}", code)));
+								rep.add(Violation::new(
+									"C05",
+									"ready_after_failed_hook",
+									&want_type,
+									phase,
+									format!("exit {:?}", code),
+								));
 							}
 						}
-						_ => rep.add(Violation::new("C05", "ready_before_hook_finished", &want_type, phase, "hook still running".into())),
+						_ => rep.add(Violation::new(
+							"C05",
+							"ready_before_hook_finished",
+							&want_type,
+							phase,
+							"hook still running".into(),
+						)),
 					}
 				}
 				if !want_hooks.is_empty() && same_type.is_empty() {
-					rep.add(Violation::new("C05", "ready_without_running_hooks", &want_type, phase, format!("configured hooks {:?}", want_hooks)));
+					rep.add(Violation::new(
+						"C05",
+						"ready_without_running_hooks",
+						&want_type,
+						phase,
+						format!("configured hooks {:?}", want_hooks),
+					));
 				}
 			}
 		}
